@@ -12,6 +12,7 @@ LEVELS = {
     "C19": "other",
     "C03": "proof",
     "C08": "other",
+    "C11": "other",
 }
 EXPLAIN = {}
 TRUSTED = [
